@@ -16,6 +16,7 @@ DOT_SPELLINGS = ['.', '..', './', '../', 'd/.', 'd/..', 'd/./', './/',
 def config(tier):
     return {
         'level': 'exploration',
+        'real_sample': 10 if tier == 'quick' else 80,
         'cases': 6000 if tier == 'quick' else 120000,
         'budget_s': 45 if tier == 'quick' else 560,
         'floors': {'cases': 300, 'args_trashed': 200, 'args_untouched': 50,
@@ -245,6 +246,34 @@ def gen_case(rng, index, tier):
                         ht, nm, world.trashinfo_text('/old/' + spec.pct_encode(
                             nm.encode()), '2001-01-01T00:00:00'),
                         [{'p': '', 't': 'f', 'c': 'old payload %d' % index}]))
+    # stale payloads WITHOUT info (file, empty dir, tree) carrying an
+    # argument's name, in the trash dirs that may be chosen: nothing may be
+    # written into / over them
+    if rng.random() < 0.3:
+        cands = []
+        ht = L.home_trash()
+        if ht:
+            cands.append(ht)
+        for v in L.mounts:
+            if L.alt_state.get(v) in ('absent', 'dir'):
+                cands.append(L.vol_path(v, '.Trash-%d' % L.uid))
+            if L.top_state.get(v) == 'sticky':
+                cands.append(L.vol_path(v, '.Trash/%d' % L.uid))
+        for a in args:
+            nm = os.path.basename(a['spelling'].rstrip('/')) or 'x'
+            if not gen.is_valid_utf8(nm) or nm in ('.', '..') or \
+                    len(nm.encode()) > 240 or '/' in nm:
+                continue
+            have = set(nd['p'] for nd in L.nodes)
+            for td in cands:
+                if rng.random() < 0.6 and (td + '/files/' + nm) not in have \
+                        and not any(h.startswith(td + '/files/' + nm + '/')
+                                    for h in have):
+                    L.add(world.ensure_trash_dirs(td))
+                    kind = rng.choice(['file', 'dir_empty', 'tree'])
+                    for nd in gen.entry_nodes(rng, td + '/files/' + nm, kind,
+                                              'stale%d' % index):
+                        L.add(nd)
     case = L.desc()
     case['env'] = dict(case['env'], **env_extra)
     case['args'] = args
